@@ -358,3 +358,75 @@ func (r *real) raceC(o Op) string {
 	seed := showList(sb.take(nSeed))
 	return fmt.Sprintf("parked=true blocked=%v seed=%s %s | %s", st == "blocked", seed, p.head(), joinDeliv(oldDeliv, name))
 }
+
+// splitRaced separates a raced op into the Delete that is held after its first read and the write
+// that runs meanwhile.
+func splitRaced(o Op) (del Op, u Op) {
+	del = Op{Op: "del", ID: o.ID}
+	u = Op{Msg: ""}
+	for _, t := range o.Opts {
+		switch {
+		case strings.HasPrefix(t, "u="):
+			u.Op = t[2:]
+		case strings.HasPrefix(t, "uid="):
+			u.ID = t[4:]
+		case strings.HasPrefix(t, "umsg="):
+			u.Msg = t[5:]
+		case t == "ucia":
+			u.Opts = append(u.Opts, "cia")
+		case strings.HasPrefix(t, "uwt="):
+			u.Opts = append(u.Opts, "wt="+t[4:])
+		default:
+			del.Opts = append(del.Opts, t)
+		}
+	}
+	return
+}
+
+// racedOp wraps a Delete and the write that overtakes it into a scenario op.
+func racedOp(del Op, u Op) Op {
+	o := Op{Op: "raced", ID: del.ID, Opts: append([]string(nil), del.Opts...)}
+	o.Opts = append(o.Opts, "u="+u.Op, "uid="+u.ID)
+	if u.Op != "del" {
+		o.Opts = append(o.Opts, "umsg="+u.Msg)
+	}
+	for _, t := range u.Opts {
+		if t == "cia" {
+			o.Opts = append(o.Opts, "ucia")
+		} else if strings.HasPrefix(t, "wt=") {
+			o.Opts = append(o.Opts, "u"+t)
+		}
+	}
+	return o
+}
+
+// raceD: a Delete is parked right after its first (read-locked) read of the item while another write
+// of the writer runs to completion; then the Delete goes on: its checks see the value first read, the
+// re-read under the write lock notices the change and the attempt is repeated with the fresh item.
+func (r *real) raceD(o Op) (ans string, uids string) {
+	del, u := splitRaced(o)
+	armedPoint.Store("coll.delete.afterRead")
+	p := r.startWrite(del)
+	select {
+	case <-parkedCh:
+	case <-p.done:
+		armedPoint.Store("")
+		return "!delete-did-not-reach-coll.delete.afterRead", ""
+	case <-time.After(2 * waitBound):
+		armedPoint.Store("")
+		return "!write-timeout", ""
+	}
+	a, sends := r.runWrite(u)
+	if strings.HasPrefix(a, "panic:") || strings.HasPrefix(a, "!") {
+		releaseCh <- struct{}{}
+		p.wait()
+		return a, ""
+	}
+	first := fmt.Sprintf("uval=%s uerr=%s | %s", part(a, "val"), part(a, "err"), r.deliveries(sends))
+	k1 := busSends.Load()
+	releaseCh <- struct{}{}
+	if !p.wait() {
+		return "!write-timeout", ""
+	}
+	return first + " || " + p.head() + " | " + r.deliveries(int(busSends.Load()-k1)), part(a, "ids")
+}
